@@ -112,6 +112,18 @@ impl PairWorld {
         self.b.get_esdt_balance(a, t, 0)
     }
 
+    /// make sure `who` can pay `amount` of pool token `t` (top-ups enter the supply ledger), so
+    /// that every op text is executable whatever prefix of the history was dropped by shrinking
+    fn ensure(&mut self, who: u64, t: &[u8], amount: &BigUint) {
+        let a = self.user(who);
+        let have = self.bal(&a, t);
+        if &have < amount {
+            self.b.set_esdt_balance(&a, t, amount);
+            let d = amount - &have;
+            if t == FIRST { self.init1 += &d } else if t == SECOND { self.init2 += &d }
+        }
+    }
+
     fn setup_pair(
         b: &mut BlockchainStateWrapper,
         owner: &Address,
@@ -686,6 +698,20 @@ impl World for PairWorld {
         let w: Vec<&str> = text.split_whitespace().collect();
         let site = w[0].to_string();
         tr.count(&format!("op.{}", site));
+        // top up the caller first (before the pre-snapshot) so that op texts stay executable
+        match w[0] {
+            "addInitial" | "addLiq" => {
+                let who: u64 = w[1].parse().unwrap();
+                self.ensure(who, FIRST, &big(w[2]));
+                self.ensure(who, SECOND, &big(w[3]));
+            }
+            "swapIn" | "swapOut" | "swapNoFee" => {
+                let who: u64 = w[1].parse().unwrap();
+                let (tin, _) = dir_tokens(w[2]);
+                self.ensure(who, tin, &big(w[3]));
+            }
+            _ => {}
+        }
         let pre = self.snap();
         let zero = rust_biguint!(0);
         let owner = self.owner.clone();
